@@ -166,4 +166,7 @@ def _run(pm: ProgramModel, ctx: Ctx, mb: ModelBuilder, cd: Codec) -> None:
                   "the reader decodes the file as UTF-8",
                   bad=f"the reader opens the file with encoding {[o_['encoding'] for o_ in ro]} "
                       f"(writer: utf8)")
+    if ctx.tier == "thorough":
+        cd.thorough_pairs(mb, ("AND", "OR", "IMPLIES", "EQUIVALENCE", "REQUIRES", "EXCLUDES"), "OPS")
+        cd.thorough_kind_pairs(mb, [D(1, 1, 1), D(0, 1, 1), D(1, 1, 2), D(1, 2, 2), D(0, 1, 2), D(2, 3, 3), D(0, 2, 2), D(1, -1, 2)])
     cd.finish_unowned()
